@@ -9,7 +9,75 @@ ROOT = os.path.dirname(os.path.dirname(os.path.abspath(__file__)))
 REPO = os.environ.get('VERIF_REPO', '/repo')
 
 
+def run_api_unit(name, tier='quick'):
+    """a bounded unit at the level of the public API: bounded/api_<name>.py gives a family of inputs and a checker for the returned string; the inputs go through
+    tools/replay_api (the real library, /repo's working tree)"""
+    t0 = time.time()
+    res = {'unit': name, 'engine': 'bounded-native', 'failures': [], 'canaries': [], 'functions': [], 'bounded': [], 'assumptions': [],
+           'obligations': 0, 'discharged': 0, 'status': 'pass', 'note': ''}
+    spec = importlib.util.spec_from_file_location('api_' + name, os.path.join(ROOT, 'bounded', 'api_%s.py' % name.lower()))
+    mod = importlib.util.module_from_spec(spec); spec.loader.exec_module(mod)
+    sys.path.insert(0, os.path.join(ROOT, 'lib'))
+    import kunit
+    inv = 'C02: well-formed, one child of math, arities, no empty token, no short row without intent, wrappers gone; C01: the visible token characters of the input in document order, nothing else'
+    # vacuity guard: the checker rejects outputs that break one sentence each
+    for inp, bad, which in mod.SELF_TEST:
+        why = mod.check(inp, bad)
+        ok = why is not None and why.startswith(which)
+        res['canaries'].append({'canary': 'checker_rejects:' + bad[:60], 'ok': ok, 'expected_to_fail': which})
+        if not ok:
+            res.update(status='inconclusive', note='the checker accepted a bad output: ' + bad)
+    inputs = mod.cases(tier)
+    exe = kunit.build_replay_api()
+    if not exe:
+        res.update(status='inconclusive', note='tools/replay_api did not build', wall_s=time.time() - t0)
+        return res
+    wd = os.path.join(ROOT, '.cache', 'bounded', name); os.makedirs(wd, exist_ok=True)
+    script = os.path.join(wd, 'script')
+    open(script, 'w', encoding='utf-8').write(''.join('set_mathml\t%s\n' % i for i in inputs))
+    p = subprocess.run([exe, script], capture_output=True, text=True, timeout=1500)
+    lines = p.stdout.split('\n')
+    if len([l for l in lines if l]) != len(inputs):
+        # the driver died (stack overflow / abort cannot be caught): the input after the last answered one is the culprit
+        k = len([l for l in lines if l])
+        res['status'] = 'violation'
+        res['failures'].append({'fn': 'set_mathml', 'label': 'bounded_api_process_died', 'kind': 'bounded check failed', 'message': 'the process died (rc=%s) on this input' % p.returncode,
+                                'rendered': 'set_mathml(%s): the driver process ended without an answer: %s' % (inputs[min(k, len(inputs) - 1)], (p.stderr or '')[-300:]),
+                                'counterexample': {'named': {'input': inputs[min(k, len(inputs) - 1)]}, 'meaning': 'argument of set_mathml'}})
+    n_ok = n_err = 0
+    def unesc(v):
+        return v.replace('\\n', '\n').replace('\\t', '\t').replace('\\\\', '\\')
+    for inp, line in zip(inputs, lines):
+        if not line:
+            continue
+        kind, _, val = line.partition('\t')
+        why = None
+        if kind == 'PANIC':
+            why = 'C08: set_mathml panicked: ' + val[:200]
+        elif kind == 'OK':
+            n_ok += 1
+            why = mod.check(inp, unesc(val))
+        else:
+            n_err += 1          # an error return is allowed by C02 ("whenever setting an expression succeeds")
+        if why and len(res['failures']) < 5:
+            res['status'] = 'violation'
+            res['failures'].append({'fn': 'set_mathml', 'label': 'bounded_api_' + why[:3], 'kind': 'bounded check failed', 'message': why,
+                                    'rendered': 'set_mathml(%s): %s' % (inp, why), 'counterexample': {'named': {'input': inp}, 'meaning': 'argument of set_mathml'}})
+    st = 'failed' if res['failures'] else 'success'
+    res['bounded'].append({'harness': 'set_mathml_family', 'bound': '%d inputs: %s' % (len(inputs), mod.family_text()), 'status': st, 'strings_tried': len(inputs),
+                           'regex': 'public API set_mathml (%d Ok, %d Err)' % (n_ok, n_err), 'invariant': inv})
+    res['functions'].append({'emitted': 'set_mathml[family]', 'file': 'src/interface.rs', 'path': 'public API set_mathml -> canonicalize', 'line': None, 'sha': None, 'success': st == 'success',
+                             'bounded': '%d inputs' % len(inputs), 'contract': {'requires': mod.family_text(), 'ensures': inv}})
+    res['checker_cmd'] = 'tools/replay_api/target/release/replay_api .cache/bounded/%s/script   (the real library built from /repo; outputs checked by bounded/api_%s.py)' % (name, name.lower())
+    res['assumptions'] = ['BOUNDED, not a proof: only the inputs of the stated family are run', 'the C01/C02 checker is written by hand from the property statements (bounded/api_%s.py)' % name.lower(),
+                          'the placeholders and invisible operators that the checker ignores are recognised by their markers (data-changed / data-added)']
+    res['wall_s'] = time.time() - t0
+    return res
+
+
 def run_unit(name, tier='quick'):
+    if os.path.exists(os.path.join(ROOT, 'bounded', 'api_%s.py' % name.lower())):
+        return run_api_unit(name, tier)
     t0 = time.time()
     res = {'unit': name, 'engine': 'bounded-native', 'failures': [], 'canaries': [], 'functions': [], 'bounded': [], 'assumptions': [],
            'obligations': 0, 'discharged': 0, 'status': 'pass', 'note': ''}
